@@ -566,6 +566,7 @@ func (c20) Run(t *testing.T, tape *core.Tape, rcx *RunCtx) *core.Result {
 		res.Count("fault_data_with_eof", rd.EOFWithData)
 		res.Count("probe_chunk_boundary_at_interesting_offset", rd.CutHits)
 		res.Count("probe_injected_error_returned_to_parser", rd.ErrReturned)
+		res.Count("fault_data_together_with_error", rd.ErrWithData)
 	}
 	res.Nontrivial = sim.Multi > 0 || fault != "none"
 	res.ShapeKey = fmt.Sprintf("%s|k%d|gz%v|%s@%d|ce%d|cx%d|%s|%s", sc.Entry, len(entries), sc.Gzip, fault, faultAt, sc.CapEntries, sc.CapErrors, sc.Consumer[:3], sc.Reader)
